@@ -3,6 +3,7 @@
 -/
 import PjVerif.Lemmas.GraphInvStep
 import PjVerif.Lemmas.TaskSrcD
+import PjVerif.Lemmas.FacadeSrcD
 namespace Pj
 
 /-- partial: every mutator except the three element-wise list-level operations (`list << x`, `list >> x`, bulk
@@ -61,5 +62,38 @@ theorem C15_source_set_children (s : G) (st : PyLite.PState) (hh : st.heap = Tas
     (l : List Uid) (hv : TaskSrc.ValueOf v l) (F : Nat) (hF : s.n + 6 ≤ F) (hrec : (setChildren s h l).2 ≠ some (.crash .recursion)) :
     TaskSrc.interpSetChildren F h v st = TaskSrc.setterResult st (setChildren s h l) :=
   TaskSrc.interpSetChildren_eq s st hh h v l hv F hF hrec
+
+/-! ### the tie of the list façades of task.py (`_ChildrenList`, `_PredecessorsList`, `_SuccessorsList`, the operators, the list-level
+    operations) to the current source, by translation (tools/extract_facade.py → Extracted/FacadeSrc.lean, Lemmas/FacadeSrc*.lean): 17 further
+    functions of the program of task.py; the setter theorems of Lemmas/TaskSrc*.lean lift to the extended program by `progH_mono` -/
+
+/-- the three element-wise list-level operations (the operations of the known findings KF-G12a/b/c) are, in the current source, what the
+    model's `step` says: the setter applied element by element -/
+theorem C15_source_list_lshift (s : G) (st : PyLite.PState) (hh : st.heap = TaskSrc.encHeap s) (ts : List Uid) (v : PyLite.Val) (l : List Uid)
+    (hv : TaskSrc.ValueOf v l) (F : Nat) (hF : s.n + 6 ≤ F) (hrec : (step s (.listLshift ts l)).2 ≠ some (.crash .recursion)) :
+    FacadeSrc.interpListLshift F ts v st = FacadeSrc.opResult st v (step s (.listLshift ts l)) :=
+  FacadeSrc.interpListLshift_eq s st hh ts v l hv F hF hrec
+
+theorem C15_source_list_rshift (s : G) (st : PyLite.PState) (hh : st.heap = TaskSrc.encHeap s) (ts : List Uid) (v : PyLite.Val) (l : List Uid)
+    (hv : TaskSrc.ValueOf v l) (F : Nat) (hF : s.n + 6 ≤ F) (hrec : (step s (.listRshift ts l)).2 ≠ some (.crash .recursion)) :
+    FacadeSrc.interpListRshift F ts v st = FacadeSrc.opResult st v (step s (.listRshift ts l)) :=
+  FacadeSrc.interpListRshift_eq s st hh ts v l hv F hF hrec
+
+theorem C15_source_list_set_parent (s : G) (st : PyLite.PState) (hh : st.heap = TaskSrc.encHeap s) (hi : Inv s) (ts : List Uid) (p : Option Uid)
+    (hvis : ∀ t ∈ ts, s.hidden t = false) (hts : ∀ t ∈ ts, t < s.n) (hp : ∀ q, p = some q → q < s.n) (F : Nat)
+    (hF : s.n + 7 ≤ F) (hrec : (step s (.listSetParent ts p)).2 ≠ some (.crash .recursion)) :
+    FacadeSrc.interpListSetParent F ts p st = FacadeSrc.opResult st (.atom .none) (step s (.listSetParent ts p)) :=
+  FacadeSrc.interpListSetParent_eq s st hh hi ts p hvis hts hp F hF hrec
+
+/-- `None` as the task argument of `remove` / `insert` / `append` of the three façades is refused with RuntimeError in every state -/
+theorem C15_source_none_argument_refused (st : PyLite.PState) (F : Nat) (hF : 2 ≤ F) (o i : PyLite.Val) :
+    FacadeSrc.interpF FacadeSrc.noLib F Extracted.Facade.fn_ChildrenList_remove [o, .atom .none] st = .error .runtime ∧
+    FacadeSrc.interpF FacadeSrc.noLib F Extracted.Facade.fn_ChildrenList_insert [o, i, .atom .none] st = .error .runtime ∧
+    FacadeSrc.interpF FacadeSrc.noLib F Extracted.fn_ChildrenList_append [o, .atom .none] st = .error .runtime ∧
+    FacadeSrc.interpF FacadeSrc.noLib F Extracted.Facade.fn_PredecessorsList_append [o, .atom .none] st = .error .runtime ∧
+    FacadeSrc.interpF FacadeSrc.noLib F Extracted.Facade.fn_PredecessorsList_remove [o, .atom .none] st = .error .runtime ∧
+    FacadeSrc.interpF FacadeSrc.noLib F Extracted.Facade.fn_SuccessorsList_append [o, .atom .none] st = .error .runtime ∧
+    FacadeSrc.interpF FacadeSrc.noLib F Extracted.Facade.fn_SuccessorsList_remove [o, .atom .none] st = .error .runtime :=
+  FacadeSrc.interpNoneArg_eq st F hF o i
 
 end Pj
